@@ -130,7 +130,12 @@ class C11(PoolCheck):
 
     def gen_limit(self, rng):
         which = rng.choice(['depth', 'depth', 'elements'])
-        if which == 'depth':
+        if which == 'depth' and rng.random() < 0.25:
+            # flat documents (depth 3) with many namespace-declaring leaves: far under every limit
+            limit = rng.choice([5, 50, 1000])
+            d = 3
+            doc = {'gen': 'nsflat', 'count': rng.choice([8, 70, 1100])}
+        elif which == 'depth':
             limit = rng.choice([5, 50, 1000])
             d = limit + rng.choice([-1, 0, 1])
             doc = {'gen': 'nested', 'depth': d, 'width': rng.choice([1, 2])}
@@ -181,6 +186,20 @@ class C11(PoolCheck):
     PROLOG_MUTATIONS = ('enc_sjis', 'enc_big5', 'enc_utf32', 'enc_ebcdic', 'enc_unknown', 'enc_utf16', 'enc_empty',
                         'ver11', 'standalone')
 
+    REENCODINGS = ('utf-16', 'utf-16-le-nobom', 'utf-32', 'garbled-head', 'latin1-high')
+
+    def reencode(self, data, how):
+        text = data.decode('utf-8').replace('\n', ' ')
+        if how == 'utf-16':
+            return text.replace('encoding="UTF-8"', 'encoding="UTF-16"').encode('utf-16')
+        if how == 'utf-16-le-nobom':
+            return text.replace('encoding="UTF-8"', 'encoding="UTF-16"').encode('utf-16-le')
+        if how == 'utf-32':
+            return text.encode('utf-32')
+        if how == 'garbled-head':
+            return b'\xff\xfe\x80' + text.encode('utf-8')[3:]
+        return text.replace('encoding="UTF-8"', 'encoding="ISO-8859-1"').encode('utf-8').replace(b't', b'\xe9', 1)
+
     def gen_lexical(self, rng):
         key = rng.choice([k for k in self.keys if not k.startswith(('recur', 'big', 'idfields', 'shadow'))])
         e = self.entries[key]
@@ -193,8 +212,12 @@ class C11(PoolCheck):
         for _ in range(rng.choice([1, 1, 2])):
             m = rng.choice(applicable)            # only mutations whose pattern occurs in this document
             muts.append([m, rng.randrange(0, max(1, min(12, body.count(self.MUTATIONS[m][1]))))])
-        return {'kind': 'lexical', 'entry': key, 'doc': di, 'muts': muts, 'api': rng.choice(APIS),
+        case = {'kind': 'lexical', 'entry': key, 'doc': di, 'muts': muts, 'api': rng.choice(APIS),
                 'lazy': rng.choice([0, 0, 1]), 'src': {'ch': 'bytes'}}
+        if rng.random() < 0.12:
+            case['muts'] = []
+            case['reencode'] = rng.choice(self.REENCODINGS)
+        return case
 
     def mutate(self, data, muts):
         changed = False
@@ -383,7 +406,8 @@ class C11(PoolCheck):
         from xmlschema import limits
         e = self.entries['recur/' + case['version']]
         g = case['docgen']
-        data = Recur.nested(g['depth'], g['width']) if g['gen'] == 'nested' else Recur.wide(g['count'])
+        data = Recur.nested(g['depth'], g['width']) if g['gen'] == 'nested' else \
+            Recur.nsflat(g['count']) if g['gen'] == 'nsflat' else Recur.wide(g['count'])
         if g.get('decor'):
             import random as _random
             data = Recur.decorate(data, _random.Random(g['decor'][0]), g['decor'][1])
@@ -462,6 +486,8 @@ class C11(PoolCheck):
         e = self.entries[case['entry']]
         doc = e.docs[case['doc']]
         data, changed = self.mutate(doc.data, case['muts'])
+        if case.get('reencode'):
+            data, changed = self.reencode(doc.data, case['reencode']), True
         keep = {}
         res = jcopy(self.call(e.schema, data, case['api'], case['lazy'], keep))
         violations = []
@@ -472,7 +498,8 @@ class C11(PoolCheck):
             violations.append({'signature': sig, 'detail': {'case': case, 'doc': doc.name, 'result': short(res),
                                                             'data': data.decode('utf-8', 'replace')[:600]}})
         counters = {'lexical_cases': 1, 'lexical_changed': int(changed)}
-        skeleton = ['lexical', e.family.name, [self.MUTATIONS[m][0] for m, _ in case['muts']], case['api'], case['lazy'], doc.name]
+        skeleton = ['lexical', e.family.name, [self.MUTATIONS[m][0] for m, _ in case['muts']] or case.get('reencode'),
+                    case['api'], case['lazy'], doc.name]
         return {'violations': violations, 'skeleton': skeleton, 'nontrivial': changed, 'counters': counters,
                 'digest': core.stable_hash(res), 'sample': {'case': case, 'outcome': res.get('cls', res['k'])}}
 
